@@ -69,8 +69,18 @@ type selRec struct {
 	choice int
 }
 
+// midFlip: during the current selection, the k-th look at a backend's state finds that the
+// health checker has just marked victim unhealthy.
+type midFlip struct {
+	k, n   int
+	victim *proxy.UpstreamHost
+	done   bool
+}
+
 type poolRig struct {
-	named   bool // backends written by host name
+	mid     *midFlip
+	ms      *sim.Stream // choices of the mid-selection flips
+	named   bool        // backends written by host name
 	w       *World
 	c       *sim.Ctl
 	st      *sim.Stream
@@ -191,6 +201,22 @@ func setupSimproxy(c *casket.Controller) error {
 		for i, h := range pool {
 			h.ReverseProxy.Transport = &simRT{rig: rig, idx: i}
 			rig.hosts = append(rig.hosts, h)
+			// every look at a backend's state during a selection is a point at which the health
+			// checker may have just changed another backend's flag (armed per selection, see Select)
+			orig := h.CheckDown
+			if orig != nil {
+				h.CheckDown = func(uh *proxy.UpstreamHost) bool {
+					if m := rig.mid; m != nil && !m.done {
+						if m.n == m.k {
+							m.done = true
+							atomic.StoreInt32(&m.victim.Unhealthy, 1)
+							rig.c.Fault("backend-marked-unhealthy-in-the-middle-of-a-selection")
+						}
+						m.n++
+					}
+					return orig(uh)
+				}
+			}
 		}
 	}
 	httpserver.GetConfig(c).AddMiddleware(func(next httpserver.Handler) httpserver.Handler {
@@ -253,6 +279,22 @@ func (wp *wrapPolicy) Select(pool proxy.HostPool, r *http.Request) *proxy.Upstre
 			vec.WriteByte('0')
 		}
 	}
+	// one selection in eight, a backend that is available when the selection begins is marked
+	// unhealthy at some point of the policy's walk over the pool (and healthy again afterwards: a
+	// flapping health check). No backend available throughout may be passed over for that.
+	var mid *midFlip
+	if rig != nil && !rig.cleanup && any && len(pool) >= 2 && wp.name != "round_robin" && !rig.realHC && rig.ms != nil && rig.ms.Draw(8) == 0 {
+		var cands []int
+		for i := range pool {
+			if avail[i] && atomic.LoadInt32(&pool[i].Unhealthy) == 0 {
+				cands = append(cands, i)
+			}
+		}
+		if len(cands) > 0 {
+			mid = &midFlip{k: rig.ms.Draw(2*len(pool) + 1), victim: pool[cands[rig.ms.Draw(len(cands))]]}
+			rig.mid = mid
+		}
+	}
 	choice := wp.inner.Select(pool, r)
 	if rig == nil || rig.cleanup {
 		return choice
@@ -265,6 +307,34 @@ func (wp *wrapPolicy) Select(pool proxy.HostPool, r *http.Request) *proxy.Upstre
 		}
 	}
 	sig := fmt.Sprintf("policy=%s/pool=%d", wp.name, len(pool))
+	if mid != nil {
+		rig.mid = nil
+		if mid.done {
+			// judged against both states: before and after the flag changed
+			throughout := -1
+			var vec2 strings.Builder
+			for i, h := range pool {
+				a2 := h.Available()
+				if a2 {
+					vec2.WriteByte('1')
+				} else {
+					vec2.WriteByte('0')
+				}
+				if avail[i] && a2 && throughout < 0 {
+					throughout = i
+				}
+				if i == ci && !avail[i] && !a2 {
+					c.Violate("C05/unavailable-host-selected", sig+"/flag-changed-mid-selection", "policy %s chose backend %d which was available neither before (%s) nor after (%s) a health flag changed during the selection", wp.name, ci, vec.String(), vec2.String())
+				}
+			}
+			atomic.StoreInt32(&mid.victim.Unhealthy, 0)
+			if choice == nil && throughout >= 0 {
+				c.Violate("C05/no-host-while-available", sig+"/flag-changed-mid-selection", "policy %s returned no backend although backend %d was available throughout the selection (availability %s when it began, %s after another backend's health flag changed in the middle of it)", wp.name, throughout, vec.String(), vec2.String())
+			}
+			c.Probe("selection-with-a-flag-changing-in-the-middle")
+			return choice
+		}
+	}
 	if any && choice == nil {
 		c.Violate("C05/no-host-while-available", sig, "policy %s returned no backend although availability is %s (pool of %d)", wp.name, vec.String(), len(pool))
 	}
@@ -543,6 +613,7 @@ func runPool(mode string) sim.RigFunc {
 		r := &poolRig{c: c, st: c.T.Stream("struct"), mode: mode, finishCh: make(chan struct{}), rrCount: map[string][]int{}}
 		poolCur = r
 		r.w = NewWorld(c)
+		r.ms = c.T.Stream("mid-selection")
 		rs := c.T.Stream("policy-rand")
 		proxy.VerifRandInt = func() int { return rs.Draw(1 << 20) }
 		defer func() { proxy.VerifRandInt = nil }()
@@ -661,7 +732,7 @@ func runPool(mode string) sim.RigFunc {
 		}
 		c.Params["backends_written"] = []string{"inline", "upstream-lines-first", "upstream-lines-last", "one-inline-rest-in-the-middle", "inline"}[shape]
 		if r.policy == "header" {
-			r.hdrName = []string{"X-Key", "X-Key", "X-Key", "Host"}[st.Draw(4)]
+			r.hdrName = []string{"X-Key", "X-Key", "x-key", "Host"}[st.Draw(4)] // (field names are case-insensitive, in a configuration too)
 			fmt.Fprintf(&b, "\t\tpolicy simwrap_header %s\n", r.hdrName)
 			c.Params["policy_header"] = r.hdrName
 		} else {
@@ -904,6 +975,19 @@ func (r *poolRig) events(add func(sim.Event)) {
 			add(sim.Event{Key: fmt.Sprintf("fault.client-cancel/c%03d", q.id), Actor: actor, Weight: 4, Fire: func() {
 				q.aborted = true
 				c.Fault("client-cancel-while-forwarded")
+				q.end.Conn().Reset("client cancels")
+			}})
+		}
+	}
+	for _, q := range r.reqs {
+		q := q
+		// the client may also give up while its request waits to be counted against a backend, or
+		// between two attempts
+		if q.cancel && !c.NoFaults && q.end != nil && !q.aborted && q.selN > 0 && q.finished == 0 && q.status == 0 &&
+			(len(q.attempts) == 0 || q.attempts[len(q.attempts)-1].outcome != "") {
+			add(sim.Event{Key: fmt.Sprintf("fault.client-cancel-early/c%03d", q.id), Actor: fmt.Sprintf("client:%d", q.id), Weight: 2, Fire: func() {
+				q.aborted = true
+				c.Fault("client-cancel-before-the-forward")
 				q.end.Conn().Reset("client cancels")
 			}})
 		}
